@@ -157,6 +157,36 @@ func cmdFilter(args []string) *Result {
 				emit(d)
 			}
 		})
+		// (C) directed: an allowed tag whose inside holds quotes, '=', '/' and a second '<' in every arrangement, then a rejected
+		// tag, then a tail that could pair with the junk - where a scanner's idea of "the end of this tag" can drift from
+		// the tokenizer's (which ends every tag at the first '>' outside a quoted attribute VALUE)
+		opens := []string{"<div", "<b", "<a href"}
+		victims := []string{"<script>alert(1)</script>", "<STYLE>", "<iframe src=x>"}
+		tails := []string{"", " \"", " '>", "\">"}
+		maxJunk := 3
+		if thorough {
+			maxJunk = 4
+		}
+		exhaustive([]string{" ", "\"", "'", "=", "x", "/", "<title"}, maxJunk, func(junk []byte) {
+			j := string(junk)
+			for oi, o := range opens {
+				for vi, v := range victims {
+					if (oi+vi+len(j))%2 == 1 && !thorough {
+						continue
+					}
+					for _, t := range tails {
+						line := o + j + "> " + v + t
+						emit([]byte(line + "\n"))
+						emit([]byte("x " + line + " y\n"))
+					}
+				}
+			}
+		})
+		src.structured(thorough, func(d []byte) {
+			if bytes.IndexByte(d, '<') >= 0 {
+				emit(d)
+			}
+		})
 	}
 	return res
 }
